@@ -474,9 +474,9 @@ func (s *Sim) Authorize(a AuthzReq) *Grant {
 
 // RedeemOpts vary a redemption attempt.
 type RedeemOpts struct {
-	As       string     // presenting client ("" = owner)
-	Redirect *string    // nil = the one sent at authorization
-	Extra    url.Values // smuggled parameters
+	As       string      // presenting client ("" = owner)
+	Redirect *string     // nil = the one sent at authorization
+	Extra    url.Values  // smuggled parameters
 	Auth     *world.Auth // explicit credentials (As still names who is really authenticating)
 	// Equivalent: the presented redirect_uri differs as a string but is URL-equivalent to the stored one (outcome unspecified)
 	Equivalent bool
@@ -599,7 +599,7 @@ func (s *Sim) Redeem(g *Grant, o RedeemOpts) *world.Out {
 
 // snapshotOthers / checkOthers are cheap collateral guards: the sweep does the real work.
 func (s *Sim) snapshotOthers(g *Grant) int { return len(s.Toks) }
-func (s *Sim) checkOthers(int, string)    {}
+func (s *Sim) checkOthers(int, string)     {}
 
 // Refresh presents a refresh token.
 func (s *Sim) Refresh(t *Tok, as string, extra url.Values) *world.Out {
